@@ -64,6 +64,7 @@ type Ctx struct {
 	Known       []knownEntry
 	KnownHit    []string
 	Variants    []string
+	RuleAlias   map[string]string
 
 	memo map[string]interface{}
 }
